@@ -621,6 +621,11 @@ struct CaseFile {
 
 } // namespace vf
 
+// UBSan calls this before printing a report (with -fno-sanitize-recover the process then exits with 1).
+extern "C" void __ubsan_on_report(void) {
+    vf::sig_write("\nDIED", vf::g_case, 0);
+}
+
 // ASan calls this before printing its report: name the case.
 extern "C" void __asan_on_error() {
     vf::sig_write("\nDIED", vf::g_case, 0);
